@@ -12,7 +12,7 @@ import (
 
 // Accessors for the C26 harness (vh_transmit).  Unexported names touched: apiMaxBatchSize,
 // apiMaxEventSize, batchedEvent, buildRequestURL, DirectTransmission.dispatchPool,
-// maxConcurrentBatches.
+// maxConcurrentBatches, DirectTransmission.batchMutex, DirectTransmission.eventBatches, eventBatch.
 
 // VerifTransmitFacts returns the size limits compiled into the package.
 func VerifTransmitFacts() map[string]string {
@@ -49,4 +49,25 @@ func VerifTransmitDrain(d *DirectTransmission) {
 	}
 	d.dispatchPool = pool.New().WithMaxGoroutines(maxConcurrentBatches)
 	old.Wait()
+}
+
+// VerifTransmitHoldMap takes the write lock of the batch map and returns its release.  The harness
+// uses it to let several EnqueueEvent calls arrive at the map lookup together: a legitimate
+// schedule (some other enqueue was inserting a batch at that moment).
+func VerifTransmitHoldMap(d *DirectTransmission) (release func()) {
+	d.batchMutex.Lock()
+	return d.batchMutex.Unlock
+}
+
+// VerifTransmitPending returns the events waiting in the batch the map holds for this destination.
+func VerifTransmitPending(d *DirectTransmission, apiHost, apiKey, dataset string) []*types.Event {
+	d.batchMutex.RLock()
+	b := d.eventBatches[transmitKey{apiHost: apiHost, apiKey: apiKey, dataset: dataset}]
+	d.batchMutex.RUnlock()
+	if b == nil {
+		return nil
+	}
+	b.mutex.Lock()
+	defer b.mutex.Unlock()
+	return append([]*types.Event(nil), b.events...)
 }
